@@ -535,6 +535,79 @@ func c19TwoWriters(r *rt.Rec, which int) {
 	r.Count("two_writer_overlaps", 1)
 }
 
+// c19CancelledRead: a listing through the wrapper is abandoned half way (its
+// context is cancelled after a few elements); the same listing asked again, with
+// a live context and no write in between, has to equal the wrapped store's.
+func c19CancelledRead(r *rt.Rec, rng *rand.Rand, which int) {
+	ctx := context.Background()
+	inner := memory.NewStore()
+	wrapped := memoization.New(inner)
+	ig, _ := inner.NewGraph(ctx, "?g")
+	n := []int{3, 40, 200, 1200}[which%4]
+	var ts []*triple.Triple
+	for i := 0; i < n; i++ {
+		ts = append(ts, gen.MustTriple(gen.VNodes[0], gen.MustImm("p"), triple.NewNodeObject(gen.MustNode("/u", fmt.Sprintf("c%d", i)))))
+	}
+	ig.AddTriples(ctx, ts)
+	hd, _ := wrapped.Graph(ctx, "?g")
+	method := []string{"Triples", "TriplesForSubject", "Objects"}[(which/4)%3]
+	after := 1 + rng.Intn(n-1)
+	label := fmt.Sprintf("cancelled-read|%s|%d-of-%d", method, after, n)
+	r.Begin(label)
+	r.Eval(1)
+	call := func(c context.Context, g storage.Graph, stopAfter int, cancel func()) (int, error) {
+		got := 0
+		var err error
+		done := make(chan struct{})
+		count := func() {
+			got++
+			if got == stopAfter && cancel != nil {
+				cancel()
+			}
+		}
+		switch method {
+		case "Triples", "TriplesForSubject":
+			ch := make(chan *triple.Triple)
+			go func() {
+				defer close(done)
+				for range ch {
+					count()
+				}
+			}()
+			if method == "Triples" {
+				err = g.Triples(c, storage.DefaultLookup, ch)
+			} else {
+				err = g.TriplesForSubject(c, gen.VNodes[0], storage.DefaultLookup, ch)
+			}
+		default:
+			ch := make(chan *triple.Object)
+			go func() {
+				defer close(done)
+				for range ch {
+					count()
+				}
+			}()
+			err = g.Objects(c, gen.VNodes[0], gen.MustImm("p"), storage.DefaultLookup, ch)
+		}
+		<-done
+		return got, err
+	}
+	cctx, cancel := context.WithCancel(ctx)
+	first, _ := call(cctx, hd, after, cancel)
+	cancel()
+	time.Sleep(time.Millisecond)
+	second, err2 := call(ctx, hd, -1, nil)
+	want, _ := call(ctx, ig, -1, nil)
+	if err2 != nil || second != want {
+		r.Violation("read-differs/after-cancelled-read/"+method, fmt.Sprintf("%s through the memoizer returns %d elements (error: %v) after an identical listing was cancelled after %d elements (it delivered %d); the wrapped store returns %d", method, second, err2, after, first, want),
+			map[string]interface{}{"case": label})
+	}
+	if first < want {
+		r.Nontrivial(label)
+	}
+	r.Count("cancelled_reads", 1)
+}
+
 func c19T(i int) *triple.Triple {
 	return gen.MustTriple(gen.VNodes[0], gen.MustImm("p"), triple.NewNodeObject(gen.VNodes[1+i]))
 }
@@ -1064,6 +1137,7 @@ func init() {
 					c01Histories(r, gen.Rng(seed, "c19h", i), n/32+1, 40, func(s storage.Store) storage.Store { return memoization.New(s) })
 				}},
 				{Name: "two-writers", N: 24, Exhaustive: true, Run: func(i int, r *rt.Rec) { c19TwoWriters(r, i) }},
+				{Name: "cancelled-read", N: 24, Run: func(i int, r *rt.Rec) { c19CancelledRead(r, gen.Rng(seed, "c19x", i), i) }},
 				{Name: "key-confusion", N: 8, Run: func(i int, r *rt.Rec) { c19KeyConfusion(r, gen.Rng(seed, "c19k", i), kc) }},
 				{Name: "handle-race", N: 8, Procs: 16, Run: func(i int, r *rt.Rec) { c19HandleRace(r, gen.Rng(seed, "c19hr", i), hr) }},
 				{Name: "fault-then-read", N: 8, Run: func(i int, r *rt.Rec) { c19FaultThenRead(r, gen.Rng(seed, "c19f", i), n/16+4) }},
